@@ -173,7 +173,7 @@ func runKillScenario(seed uint64, size int, out io.Writer) (crashed bool) {
 		}
 	}()
 	var got []string
-	armed, done, killed := false, 0, false
+	armed, done, killed, timedOut := false, 0, false, false
 	timeout := time.After(60 * time.Second)
 loop:
 	for {
@@ -197,6 +197,7 @@ loop:
 		case <-timeout:
 			cmd.Process.Signal(syscall.SIGKILL)
 			killed = true
+			timedOut = true
 			timeout = nil
 		}
 	}
@@ -223,8 +224,16 @@ loop:
 	for _, l := range keep {
 		fmt.Fprintln(out, l)
 	}
+	if (dir == "" || !armed) && timedOut {
+		// the machine was too busy for the child to finish its setup in a minute: nothing was tested
+		fmt.Fprintf(out, "# stat kill.skipped-setup-timeout 1\n")
+		if dir != "" {
+			os.RemoveAll(dir)
+		}
+		return false
+	}
 	if dir == "" || !armed {
-		fmt.Fprintf(out, "crash seed=%d exit=-1 => the kill workload did not get as far as its setup\n", seed)
+		fmt.Fprintf(out, "crash seed=%d exit=-1 => the kill workload ended by itself before its setup was complete\n", seed)
 		return true
 	}
 	if intent != "" {
